@@ -1,7 +1,8 @@
 (* C04 — Requests are routed to the replica set owning the key's slot, by role; handshake first.
    Only theorem statements; proofs in Proofs/RouteProofs.v. *)
 From RcProxy Require Import Base.Bytes Base.Dec Gen.Generated Spec.RespGrammar Spec.RouteSpec Spec.CommandSpec
-  Model.Route Proofs.CommandsProofs Proofs.RouteProofs.
+  Model.Route Proofs.CommandsProofs Proofs.RouteProofs
+  Model.Proxy Proofs.ProxyOrderProofs Proofs.ProxyRouteProofs.
 Open Scope N_scope.
 
 (* for every replica-set (master, replicas with any pool/ban state), every command type, either
@@ -53,6 +54,27 @@ Theorem C04_scripts_and_scans :
   assoc_b (bs "zscan") CommandStr2Type = Some ReqZscan.
 Proof. exact scripts_and_scans_go_to_master. Qed.
 Print Assumptions C04_scripts_and_scans.
+
+
+(* ... and delivery, at the level of the event loop, for EVERY history: a fragment written to (or
+   queued for) a backend connection - unless a node redirected it there - is on a connection to
+   the node that owns the fragment's slot in the proxy's slot table; the connections a pool holds
+   go to that pool's address (also after reconnects, rotation and eviction of dead connections). *)
+Theorem C04_delivered_to_the_owner : forall cfg pools slots evs st s sv mid slot,
+  Forall (fun p => pp_conns p = []) pools ->
+  run (init_state cfg pools slots) evs = ROk st -> lookup s (servers st) = Some sv ->
+  In (FReq mid slot) (map fst (ps_written sv) ++ ps_outq sv) ->
+  okey st (FReq mid slot) <> None ->
+  slot_master st slot = Some (ps_addr sv).
+Proof. exact delivered_to_the_owner. Qed.
+Print Assumptions C04_delivered_to_the_owner.
+
+Theorem C04_pools_hold_their_own_connections : forall cfg pools slots evs st p s sv,
+  Forall (fun p => pp_conns p = []) pools ->
+  run (init_state cfg pools slots) evs = ROk st -> In p (Proxy.pools st) -> In s (pp_conns p) ->
+  lookup s (servers st) = Some sv -> ps_addr sv = pp_addr p.
+Proof. exact pools_hold_their_own_connections. Qed.
+Print Assumptions C04_pools_hold_their_own_connections.
 
 (* HANDSHAKE: what a new backend connection is sent first is AUTH <password> iff a password is
    configured, then READONLY iff the connection is to a replica - as canonical requests *)
